@@ -12,9 +12,9 @@ import (
 	"context"
 	"encoding/binary"
 	"encoding/json"
+	"errors"
 	"fmt"
 	"hash/crc32"
-	"errors"
 	"math/rand"
 	mrand2 "math/rand/v2"
 	"path/filepath"
@@ -26,6 +26,7 @@ import (
 	"github.com/WuKongIM/WuKongIM/pkg/slot/multiraft"
 	"github.com/cockroachdb/pebble/v2"
 	"github.com/cockroachdb/pebble/v2/vfs"
+	raft "go.etcd.io/raft/v3"
 	"go.etcd.io/raft/v3/raftpb"
 )
 
@@ -69,8 +70,8 @@ type verifC12Event struct {
 
 // verifC12History is the replayable record of one run.
 type verifC12History struct {
-	Config  verifC12Config  `json:"config"`
-	Settled bool            `json:"settled"`
+	Config  verifC12Config `json:"config"`
+	Settled bool           `json:"settled"`
 	// SettleSeq: every event with Seq < SettleSeq happened before the poll
 	// round in which all replicas reported the same applied == commit index.
 	SettleSeq int64           `json:"settle_seq"`
@@ -113,13 +114,13 @@ type verifC12Link struct {
 }
 
 type verifC12Step struct {
-	Kind    string        `json:"kind"` // isolate, oneway, split, heal, link, restart, transfer, compact, pause
-	Nodes   []int         `json:"nodes,omitempty"`
-	Slot    int           `json:"slot,omitempty"`
-	DownMS  int           `json:"down,omitempty"`
-	Unsynced int          `json:"unsynced,omitempty"` // Kill mode: percent of unsynced data that survives the power loss
-	PauseMS int           `json:"pause"`
-	Link    *verifC12Link `json:"link,omitempty"`
+	Kind     string        `json:"kind"` // isolate, oneway, split, heal, link, restart, transfer, compact, pause
+	Nodes    []int         `json:"nodes,omitempty"`
+	Slot     int           `json:"slot,omitempty"`
+	DownMS   int           `json:"down,omitempty"`
+	Unsynced int           `json:"unsynced,omitempty"` // Kill mode: percent of unsynced data that survives the power loss
+	PauseMS  int           `json:"pause"`
+	Link     *verifC12Link `json:"link,omitempty"`
 }
 
 type verifC12Config struct {
@@ -516,6 +517,45 @@ func (t verifC12Transport) Send(_ context.Context, batch []multiraft.Envelope) e
 	return nil
 }
 
+// ---------------------------------------------------------------- storage
+
+// verifC12MemStore is raftlog.NewMemory() plus the one rule the Pebble store
+// enforces and the runtime relies on: a snapshot older than the stored one is
+// refused (raft.ErrSnapOutOfDate). The runtime persists an incoming raft
+// snapshot before it waits for in-flight async apply tasks, so a compaction
+// snapshot of an older index can reach Save afterwards; the plain in-memory
+// test store would let it replace the newer snapshot (no production user).
+type verifC12MemStore struct {
+	multiraft.Storage
+	mu        sync.Mutex
+	snapIndex uint64
+	c12Stale  int
+}
+
+func (s *verifC12MemStore) Save(ctx context.Context, st multiraft.PersistentState) error {
+	if st.Snapshot == nil {
+		return s.Storage.Save(ctx, st)
+	}
+	s.mu.Lock()
+	defer s.mu.Unlock()
+	if st.Snapshot.Metadata.Index < s.snapIndex {
+		s.c12Stale++
+		return raft.ErrSnapOutOfDate
+	}
+	if err := s.Storage.Save(ctx, st); err != nil {
+		return err
+	}
+	s.snapIndex = st.Snapshot.Metadata.Index
+	return nil
+}
+
+func (s *verifC12MemStore) MarkConfigApplied(ctx context.Context, index uint64) error {
+	if inner, ok := s.Storage.(multiraft.ConfigAppliedIndexStorage); ok {
+		return inner.MarkConfigApplied(ctx, index)
+	}
+	return nil
+}
+
 // ---------------------------------------------------------------- node / cluster
 
 type verifC12Node struct {
@@ -526,7 +566,7 @@ type verifC12Node struct {
 	rt     *multiraft.Runtime
 	db     *raftlog.DB
 	inc    *verifC12Inc
-	fs     *vfs.MemFS // Kill mode: the crashable file system pebble lives on
+	fs     *vfs.MemFS          // Kill mode: the crashable file system pebble lives on
 	mem    []multiraft.Storage // per slot, memory backend (survives "restart")
 	recs   []*verifC12Rec      // per slot
 	starts int
@@ -564,7 +604,7 @@ func verifC12NewCluster(cfg verifC12Config, dir string) *verifC12Cluster {
 		for s := 1; s <= cfg.Slots; s++ {
 			n.recs = append(n.recs, &verifC12Rec{c: c, node: i, slot: s})
 			if !cfg.Pebble {
-				n.mem = append(n.mem, raftlog.NewMemory())
+				n.mem = append(n.mem, &verifC12MemStore{Storage: raftlog.NewMemory()})
 			}
 		}
 		c.nodes = append(c.nodes, n)
@@ -583,7 +623,13 @@ func (c *verifC12Cluster) voters() []multiraft.NodeID {
 
 // start opens the node's storage and runtime. The first start bootstraps
 // every slot with the full voter set; later starts reopen from storage.
-func (n *verifC12Node) start() error {
+func (n *verifC12Node) start() (err error) {
+	defer func() {
+		// etcd/raft panics when the state it is given is inconsistent
+		if p := recover(); p != nil {
+			err = fmt.Errorf("%w: node %d: %v", verifC12ErrRestart, n.id, p)
+		}
+	}()
 	cfg := n.c.cfg
 	var db *raftlog.DB
 	if cfg.Pebble {
@@ -592,12 +638,13 @@ func (n *verifC12Node) start() error {
 		// the pebble-options hook is process-global: every Open of this
 		// harness goes through one mutex
 		verifC12OpenMu.Lock()
+		raftlog.VerifPebbleOptions = func(o *pebble.Options) { o.Logger = verifC12NoLog{} }
 		if cfg.Kill {
 			if n.fs == nil {
 				n.fs = vfs.NewCrashableMem()
 			}
 			fs := n.fs
-			raftlog.VerifPebbleOptions = func(o *pebble.Options) { o.FS = fs }
+			raftlog.VerifPebbleOptions = func(o *pebble.Options) { o.FS, o.Logger = fs, verifC12NoLog{} }
 			// an incarnation that lost power keeps running in this process
 			// until closed; its snapshot GC must not delete directories the
 			// crash image still refers to
@@ -660,7 +707,10 @@ func (n *verifC12Node) start() error {
 			if db != nil {
 				_ = db.Close()
 			}
-			return fmt.Errorf("open slot %d on node %d (first=%v): %w", s, n.id, first, err)
+			if !first {
+				return fmt.Errorf("%w: OpenSlot(%d) on node %d: %v", verifC12ErrRestart, s, n.id, err)
+			}
+			return fmt.Errorf("bootstrap slot %d on node %d: %w", s, n.id, err)
 		}
 	}
 	n.mu.Lock()
@@ -670,6 +720,19 @@ func (n *verifC12Node) start() error {
 }
 
 var verifC12OpenMu sync.Mutex
+
+// verifC12NoLog keeps Pebble's WAL-replay chatter out of the unit logs.
+type verifC12NoLog struct{}
+
+func (verifC12NoLog) Infof(string, ...any)  {}
+func (verifC12NoLog) Errorf(string, ...any) {}
+func (verifC12NoLog) Fatalf(format string, a ...any) {
+	panic(fmt.Sprintf("pebble fatal: "+format, a...))
+}
+
+// verifC12ErrRestart marks a node that could not come back from what its own
+// storage holds (OpenSlot error or raft panic on the loaded state).
+var verifC12ErrRestart = errors.New("restart from own storage failed")
 
 // kill simulates a power loss: from one instant on nothing of this
 // incarnation reaches the network or the state machine, and the storage the
